@@ -47,6 +47,9 @@ pub struct InjectedPanic {
 }
 /// payload of the per-event step bound
 pub struct WatchdogPanic;
+/// payload of a panic thrown by the simulated eviction callback itself (C15's fault class: the
+/// callback has been invoked and recorded, then fails)
+pub struct SoftCbPanic;
 
 #[derive(Clone, Copy, Debug, PartialEq, Eq)]
 pub enum ObjState {
@@ -91,6 +94,23 @@ thread_local! {
     static WATCHDOG_FIRED: Cell<bool> = const { Cell::new(false) };
     static QUIET: Cell<bool> = const { Cell::new(false) };
     static SUSPENDED: Cell<bool> = const { Cell::new(false) };
+    static CB_PANIC_IN: Cell<u64> = const { Cell::new(0) };
+}
+
+/// the n-th callback invocation from now on panics after it has been recorded (0 = never)
+pub fn set_cb_panic(n: u64) {
+    CB_PANIC_IN.with(|c| c.set(n));
+}
+/// called by the simulated callback after recording an invocation
+pub fn cb_panic_due() -> bool {
+    CB_PANIC_IN.with(|c| {
+        let n = c.get();
+        if n == 0 {
+            return false;
+        }
+        c.set(n - 1);
+        n == 1
+    })
 }
 
 struct Resume(bool);
@@ -127,6 +147,7 @@ pub fn reset() {
     FAULT_KIND_FIRED.with(|c| c.set(255));
     KIND_COUNTS.with(|k| *k.borrow_mut() = [0; N_CALL_KINDS]);
     WATCHDOG_FIRED.with(|c| c.set(false));
+    CB_PANIC_IN.with(|c| c.set(0));
 }
 
 pub fn set_fault(at: u64, at2: u64) {
@@ -385,7 +406,7 @@ pub fn cb_take(id: u32) -> Vec<(u32, u64)> {
 
 pub fn install_panic_hook() {
     std::panic::set_hook(Box::new(|info| {
-        let ours = info.payload().is::<InjectedPanic>() || info.payload().is::<WatchdogPanic>();
+        let ours = info.payload().is::<InjectedPanic>() || info.payload().is::<WatchdogPanic>() || info.payload().is::<SoftCbPanic>();
         if !ours {
             let loc = info
                 .location()
